@@ -41,6 +41,8 @@ def run(F, chk):
         check_marked(F, st, P5)
     P3.floor('lifecycle stage functions', len(lcstage.find_stage(F)), 1)
     comparators.check(F, O1, where=lambda b: any(re.search(r'Lifecycle\b', t) for t in b.arg_types()), floor=2)
+    P6 = chk.rule('P6', 'the published table is written only through update (replace the single value), empty (remove the key), purge and refresh: every key readers see holds exactly one value')
+    check_table_api(F, P6)
 
 
 def is_self_field(e, name):
@@ -255,7 +257,7 @@ def check_unpublish(F, st, P4):
     P4.fn(body.path)
     merges = sorted(st.blocks_with('MERGE'))
     tests = st.blocks_with('LCS_CONTAINS') + st.blocks_with('LCS_REMOVE')
-    unpublish = set(bi for bi in st.blocks_with('W_DIRTY') if st.info[bi].get('what') in ('empty', 'remove_entry', 'clear', 'remove_value', 'purge'))
+    unpublish = set(bi for bi in st.blocks_with('W_DIRTY') if st.info[bi].get('what') in ('empty', 'remove_entry', 'purge'))   # key-removing calls only: clear/remove keep the key with an empty bag
     recvs = set(st.blocks_with('RECV_IN'))
     merged_of = {}
     for m in merges:
@@ -448,3 +450,40 @@ def guard_key2(st, bi):
         if t in (True, False) and isinstance(c, tuple) and c[0] in ('bin',) and c[1] in ('Eq', 'Ne'):
             ks.append(re.sub(r'[^A-Za-z_(),]+', '', show(c))[:30] + str(t))
     return ','.join(ks[:2]) or 'top'
+
+
+# ---------------------------------------------------------------------------------------------
+# P6: table write API
+
+TABLE_WRITE_OK = {'update': 'replaces the value-bag by exactly one value', 'empty': 'removes the key', 'purge': 'removes all keys', 'refresh': 'publishes',
+                  'flush': 'publishes', 'pending': 'read-only', 'is_empty': 'read-only', 'len': 'read-only', 'destroy': 'ends the table',
+                  'deref': 'read access', 'clone': 'read handle'}
+TABLE_WRITE_BAD = {'insert': 'adds a second value to the bag of a key: readers use get_one() and would see an arbitrary one',
+                   'clear': 'keeps the key with an empty value-bag: the id stays published and readers (get_one().unwrap()) fail on it',
+                   'remove': 'removes one value but keeps the key with an empty bag',
+                   'remove_value': 'removes one value but keeps the key with an empty bag',
+                   'extend': 'inserts without replacing', 'retain': 'can leave an empty bag', 'empty_random': 'removes an arbitrary key',
+                   'reserve': 'creates an empty bag for a new key', 'fit': 'n/a', 'fit_all': 'n/a'}
+
+
+def check_table_api(F, P6):
+    """Readers of the lifecycle table (listing, sorter, remote, export plugin) take `get_one()` of each key and unwrap it, so
+    the invariant "every key present <=> exactly one value" must be kept by the writers.  Who-may-call rule over every
+    call on an evmap WriteHandle in library and binary."""
+    n = 0
+    for b in F.order:
+        for blk in b.calls():
+            p = blk.term.callee.path
+            m = re.match(r'^evmap::WriteHandle::<K, V, M, S>::(\w+)$', p)
+            if not m:
+                continue
+            n += 1
+            P6.sites += 1
+            P6.fn(b.path)
+            what = m.group(1)
+            if what in TABLE_WRITE_OK:
+                P6.ok(sample={'function': b.path, 'call': what, 'why_ok': TABLE_WRITE_OK[what]})
+            else:
+                P6.violation(('table-api', b.closure_of or b.path, what), '%s calls WriteHandle::%s on the published lifecycle table at %s: %s' %
+                             (b.path, what, b.loc(blk.term.sp), TABLE_WRITE_BAD.get(what, 'not a reviewed table operation')), where=b.loc(blk.term.sp))
+    P6.floor('calls on the table write handle', n, 7)
